@@ -401,7 +401,9 @@ def c07(run, op, ctx, after):
         problems.append("returned token %r is not the current token %r" % (extra.get("sync-token"), o.tags.get("sync")))
     if problems:
         run.v("C07", "C07.wrong-change-list", "sync on %s from token of step %s: %s" % (coll, ti.get("step", "-"), "; ".join(problems)[:400]),
-              backend=run.model.colls[coll].backend if coll in run.model.colls else None, empty_token=bool(ti.get("empty")))
+              backend=run.model.colls[coll].backend if coll in run.model.colls else None, empty_token=bool(ti.get("empty")),
+              # the answer describes the collection as having no members at all (token of the empty tree)
+              reports_empty_collection=bool(extra.get("sync-token") == "4b825dc642cb6eb9a060e54bf8d69288fbee4904" and o.tags.get("sync") != extra.get("sync-token")), read_fault=bool(ctx.get("read_fault")))
     if want_changed and want_removed:
         run.nontrivial.setdefault("pairs", set()).add((coll, ti.get("step"), run.step_no))
     run.nontrivial["reports"] = run.nontrivial.get("reports", 0) + 1
